@@ -108,7 +108,8 @@ PROPS = {
         rule="alloc: random well-bracketed op sequences (allocate / grow / shrink / free, sizes 0..limit+10, limits 0..65536) on the real LimitedAllocator, "
              "refusal flag, reported request and in-use after every operation compared with the model; memlimit: real producer histories (1-4 trace batches) "
              "decoded by the real consumer under 10 limits from 16 B to 70 MiB, outcome class, errors.Is recognisability, published in-use (own MeterProvider), "
-             "equality of decoded telemetry across accepting limits, monotonicity of the first refused batch in the limit",
+             "equality of decoded telemetry across accepting limits, monotonicity of the first refused batch in the limit; schema-switch cases (a big logs batch, then a small one re-announcing every payload type "
+             "under new schema ids — the memory it needs does not depend on the first) swept over 16 limits: once decodable, decodable under every larger limit",
         trusted_base=["modelled, not verified: arrow-go (its recover turning the LimitError panic into Reader.Err, its allocation sequence being independent of the limit), "
                       "Go errors.Is/As over %w / werror.Wrap chains"],
         assumptions=["block sizes and limits below 2^62 (Go ints; the default limit is 70 MiB)", "after a refused batch the sub-stream is desynchronised: later batches only need not panic"],
